@@ -37,6 +37,9 @@ func (m *mockDriver) SendSearchUpdate(depth int, seldepth int, nodes uint64, nps
 func (m *mockDriver) SendCurrentLine(moveList moveslice.MoveSlice) {}
 func (m *mockDriver) SendResult(bestMove Move, ponderMove Move) {
 	sched.Record("result", bestMove.StringUci())
+	if ponderMove != MoveNone {
+		sched.Record("ponder", ponderMove.MoveOf().StringUci())
+	}
 }
 
 // lifecycle positions: tiny, pairwise disjoint legal move sets so that a result identifies its search
@@ -44,6 +47,7 @@ var lcFens = map[string]string{
 	"A": "8/8/8/8/8/8/4k3/K7 w - - 0 1",
 	"B": "7k/8/8/8/8/8/8/K7 b - - 0 1",
 	"C": "k7/8/8/8/8/8/8/7K w - - 0 1",
+	"D": "k7/7R/8/8/8/8/8/7K b - - 0 1", // exactly one legal move (a8b8): the search answers such roots after one iteration
 }
 
 type lcOp struct {
@@ -62,6 +66,7 @@ var lcOps = []lcOp{
 	{name: "Start(A,infinite)", start: "A", infinite: true},
 	{name: "Start(B,movetime 25ms)", start: "B"},
 	{name: "Start(C,ponder,wtime 300ms)", start: "C", ponder: true},
+	{name: "Start(D,infinite,single move)", start: "D", infinite: true},
 	{name: "Stop", stops: true},
 	{name: "Wait", waits: true},
 	{name: "IsSearching"},
@@ -352,66 +357,175 @@ func c14(tier string, args []string) int {
 	}
 	run.Rule("controller programs = every sequence of lifecycle calls up to the stated length (closed with Stop;Wait), each explored over all schedules of controller / search / timer threads within the deviation bound (preemptions and early clock ticks) by stateless DFS on the real search.go under a cooperative scheduler with virtual time; oracle: scheduler verdicts (deadlock, hang, panic), result sequence vs start sequence, vector-clock data-race detection on all instrumented shared fields")
 	run.Assume("sequentially consistent memory; weaker orders are covered only through the race verdict")
-	maxLen, bound := 3, 1
+	// stages are explored in this order; a stage cut short by the internal deadline is reported as incomplete
+	type stage struct{ minLen, maxLen, bound int }
+	stages := []stage{{1, 3, 1}}
 	if tier == "thorough" {
-		maxLen, bound = 3, 2
+		stages = []stage{{1, 3, 1}, {1, 2, 2}, {4, 4, 0}, {3, 3, 2}, {4, 4, 1}}
 	}
-	progs := lcPrograms(maxLen)
 	shard, n, worker := vl.WorkerShard()
 	if !worker {
-		run.Set("programs", len(progs))
-		run.Set("max_program_length", maxLen)
-		run.Set("deviation_bound", bound)
+		run.Set("stages", fmt.Sprint(stages))
 		return run.RunWorkers(16)
 	}
 	run.SetDeadline(budget(tier))
 	outcomes := map[string]bool{}
 	var execs, maxPoints int64
-	capped := 0
-	for pi, prog := range progs {
-		if pi%n != shard {
-			continue
-		}
-		if run.Expired() {
-			break
-		}
-		body := lcBody(prog)
-		ex := &sched.Explorer{Bound: bound, Body: body, MaxExec: 200000}
-		ex.Check = func(x *sched.Exec) {
-			run.AddTransitions(int64(x.Steps))
-			var res []string
-			for _, e := range x.Events {
-				if e.Name == "result" {
-					res = append(res, e.Arg)
+	for si, st := range stages {
+		progs := lcPrograms(st.maxLen)
+		done, total := 0, 0
+		for pi, prog := range progs {
+			if len(prog) < st.minLen || pi%n != shard {
+				continue
+			}
+			total++
+			if run.Expired() {
+				continue
+			}
+			bound := st.bound
+			body := lcBody(prog)
+			ex := &sched.Explorer{Bound: bound, Body: body, MaxExec: 200000, Deadline: run.DeadlineTime()}
+			ex.Check = func(x *sched.Exec) {
+				run.AddTransitions(int64(x.Steps))
+				var res []string
+				for _, e := range x.Events {
+					if e.Name == "result" {
+						res = append(res, e.Arg)
+					}
+				}
+				outcomes[x.Verdict+"|"+strings.Join(res, ",")] = true
+				for _, vd := range lcCheck(prog, x) {
+					if strings.HasPrefix(vd.key, "INFRA") {
+						fmt.Fprintln(os.Stderr, "infrastructure error:", vd.what)
+						os.Exit(2)
+					}
+					run.Violate(vd.key, vd.what, map[string]interface{}{"kind": "schedule", "program": lcName(prog), "ops": prog, "choices": x.Choices, "events": x.EventsString()})
 				}
 			}
-			outcomes[x.Verdict+"|"+strings.Join(res, ",")] = true
-			for _, vd := range lcCheck(prog, x) {
-				if strings.HasPrefix(vd.key, "INFRA") {
-					fmt.Fprintln(os.Stderr, "infrastructure error:", vd.what)
-					os.Exit(2)
-				}
-				run.Violate(vd.key, vd.what, map[string]interface{}{"kind": "schedule", "program": lcName(prog), "ops": prog, "choices": x.Choices, "events": x.EventsString()})
+			ex.Explore()
+			execs += int64(ex.Executions)
+			if int64(ex.MaxPoints) > maxPoints {
+				maxPoints = int64(ex.MaxPoints)
+			}
+			if ex.Capped {
+				run.Cap(fmt.Sprintf("stage %d (programs of length %d..%d, bound %d) not completed", si, st.minLen, st.maxLen, st.bound))
+			} else {
+				done++
+			}
+			run.AddStates(1)
+			if pi%97 == 0 {
+				run.SampleCat(fmt.Sprintf("program(bound %d)", bound), map[string]interface{}{"program": lcName(prog), "bound": bound, "executions": ex.Executions, "max_choice_points": ex.MaxPoints})
 			}
 		}
-		ex.Explore()
-		execs += int64(ex.Executions)
-		if int64(ex.MaxPoints) > maxPoints {
-			maxPoints = int64(ex.MaxPoints)
-		}
-		if ex.Capped {
-			capped++
-			run.Cap(fmt.Sprintf("execution cap reached for some programs at bound %d", bound))
-		}
-		run.AddStates(1)
-		if pi%97 == 0 {
-			run.SampleCat("program", map[string]interface{}{"program": lcName(prog), "executions": ex.Executions, "max_choice_points": ex.MaxPoints})
+		run.Count(fmt.Sprintf("stage%d_len%d-%d_bound%d_programs_completed", si, st.minLen, st.maxLen, st.bound), int64(done))
+		run.Count(fmt.Sprintf("stage%d_len%d-%d_bound%d_programs_total", si, st.minLen, st.maxLen, st.bound), int64(total))
+		if done < total {
+			run.Cap(fmt.Sprintf("stage %d (programs of length %d..%d, bound %d) not completed", si, st.minLen, st.maxLen, st.bound))
 		}
 	}
+	execs += c14DeepStop(run, tier, shard, n)
 	run.AddEvals(execs)
 	run.Count("executions", execs)
 	run.Count("programs_explored", run.States)
 	run.Count("distinct_outcomes_per_worker_sum", int64(len(outcomes)))
 	run.Set("shared_variables", sched.SharedVars())
 	return run.FinishWorker()
+}
+
+// c14DeepStop: the stop request (or ponderhit + stop) lands between every pair of steps of a deeper search
+// (deviation bound 2: leave the controller after StartSearch, come back to it after k search steps, for every k).
+// Oracle: exactly one result, best move / ponder move / every iteration PV legal and playable (the C05 clauses
+// under schedules), no deadlock / hang / panic.
+func c14DeepStop(run *vl.Run, tier string, shard, n int) int64 {
+	type ds struct {
+		fen   string
+		depth int
+		mode  string
+	}
+	cases := []ds{{lcFens["A"], 3, "infinite"}, {"8/8/8/8/8/8/Q7/K1k5 w - - 0 1", 2, "infinite"}, {"8/8/8/8/8/8/Q7/K1k5 w - - 0 1", 2, "ponder"}, {"6k1/5ppp/8/8/8/8/5PPP/3R2K1 w - - 0 1", 2, "infinite"}}
+	bound := 2
+	var execs int64
+	for ci, c := range cases {
+		if (ci+3)%n != shard {
+			continue
+		}
+		c := c
+		r := refchess.MustFEN(c.fen)
+		body := func() {
+			config.Settings.Search.UseBook = false
+			config.Settings.Search.TTSize = 1
+			s := search.NewSearch()
+			s.SetUciHandler(&mockDriver{})
+			p, _ := position.NewPositionFen(c.fen)
+			sl := search.Limits{Infinite: true, Depth: c.depth}
+			if c.mode == "ponder" {
+				sl = search.Limits{Ponder: true, TimeControl: true, WhiteTime: time.Second, BlackTime: time.Second, Depth: c.depth}
+			}
+			s.StartSearch(*p, sl)
+			if c.mode == "ponder" {
+				s.PonderHit()
+			}
+			sched.Record("stop", "")
+			s.StopSearch()
+			s.WaitWhileSearching()
+		}
+		ex := &sched.Explorer{Bound: bound, Body: body, MaxExec: 60000, Deadline: run.DeadlineTime()}
+		stopPositions := map[int]bool{}
+		ex.Check = func(x *sched.Exec) {
+			run.AddTransitions(int64(x.Steps))
+			rep := map[string]interface{}{"kind": "schedule", "program": fmt.Sprintf("Start(%s,%s,depth %d); Stop", c.fen, c.mode, c.depth), "choices": x.Choices, "events": x.EventsString()}
+			switch x.Verdict {
+			case "deadlock", "horizon":
+				run.Violate("deep-stop:"+x.Verdict, x.Detail, rep)
+				return
+			case "panic":
+				run.Violate("deep-stop:panic", x.Detail, rep)
+				return
+			case "divergence":
+				fmt.Fprintln(os.Stderr, "infrastructure error:", x.Detail)
+				os.Exit(2)
+			}
+			results, best := 0, ""
+			iterBefore := 0
+			seenStop := false
+			for _, e := range x.Events {
+				switch e.Name {
+				case "stop":
+					seenStop = true
+				case "iteration":
+					if !seenStop {
+						iterBefore++
+					}
+					pv := strings.Fields(strings.SplitN(e.Arg, " pv ", 2)[1])
+					if i := playable(r, pv); i >= 0 {
+						run.Violate("deep-stop:pv-unplayable", fmt.Sprintf("iteration PV %v: move %d is not legal", pv, i+1), rep)
+					}
+				case "result":
+					results++
+					best = e.Arg
+					if _, ok := r.FindUci(best); !ok {
+						run.Violate("deep-stop:bestmove-illegal", "best move "+best+" is not legal in the searched position", rep)
+					}
+				case "ponder":
+					if m, ok := r.FindUci(best); ok {
+						if _, ok2 := r.Make(m).FindUci(e.Arg); !ok2 {
+							run.Violate("deep-stop:pondermove-illegal", "ponder move "+e.Arg+" is not legal after "+best, rep)
+						}
+					}
+				}
+			}
+			stopPositions[iterBefore*1000+x.Steps] = true
+			if results != 1 {
+				run.Violate("deep-stop:result-count", fmt.Sprintf("%d results for one search", results), rep)
+			}
+		}
+		ex.Explore()
+		execs += int64(ex.Executions)
+		run.AddStates(1)
+		if ex.Capped {
+			run.Cap("deep-stop exploration capped")
+		}
+		run.SampleCat("deep-stop", map[string]interface{}{"fen": c.fen, "mode": c.mode, "depth": c.depth, "bound": bound, "schedules": ex.Executions, "distinct_stop_arrivals": len(stopPositions)})
+	}
+	return execs
 }
